@@ -226,12 +226,27 @@ Definition hub_holds (h : hub) (p : N) (d : digest) : bool :=
   | None => match rcpt_compacted h p with Some d' => bytes_eqb d' d | None => false end
   end.
 
-(* the hub's own compaction consumes the received file of p: the consumed-inputs observer marks
-   the receipt (MarkCompacted is an UPDATE: only an existing receipt), then the file is deleted *)
-Definition hub_compact (h : hub) (p : N) : hub :=
+(* Hub compaction of a received file happens in two steps that other requests can interleave
+   with: the consumed-inputs observer marks the receipt (MarkCompacted is an UPDATE: only an
+   existing receipt; compaction only consumes files that exist), and later - possibly much
+   later, when the source deletion failed or was deferred - the raw file is deleted. *)
+Definition hub_mark_compacted (h : hub) (p : N) : hub :=
   match h_final h p, h_rcpt h p with
-  | Some _, Some (d, _) =>
-      hub_set_final (hub_set_rcpt h (fset (h_rcpt h) p (Some (d, true)))) (fset (h_final h) p None)
+  | Some _, Some (d, _) => hub_set_rcpt h (fset (h_rcpt h) p (Some (d, true)))
+  | _, _ => h
+  end.
+
+Definition hub_delete_raw (h : hub) (p : N) : hub :=
+  match h_final h p, rcpt_compacted h p with
+  | Some _, Some _ => hub_set_final h (fset (h_final h) p None)
+  | _, _ => h
+  end.
+
+(* a genuine hub-side removal (retention, operator): the content is gone; not applicable to a
+   file the hub's compaction has consumed (its deletion is hub_delete_raw) *)
+Definition hub_remove (h : hub) (p : N) : hub :=
+  match h_final h p, rcpt_compacted h p with
+  | Some _, None => hub_set_removed (hub_set_final h (fset (h_final h) p None)) (cinc (h_removed h) p)
   | _, _ => h
   end.
 
@@ -340,6 +355,10 @@ Definition apply_mut (m : body_mut) (b : bytes) : bytes :=
 
 Inductive pfault :=
 | FDeliver (m : body_mut) (lost : bool) (regfail : bool)  (* reaches the hub; the answer may be lost *)
+| FRetry (m : body_mut) (mark : bool) (lost2 : bool)
+    (* transport-level retry: the first delivery (body mutated by m) reaches the hub but its
+       answer is lost, the transport sends the whole request again without a new reconcile;
+       in between the hub's compaction may mark the path's receipt (mark) *)
 | FDropBefore                                              (* never reaches the hub *)
 | FBackpressure                                            (* 429 before the receiver runs *)
 | FConflict (d : digest).                                  (* scripted 409 carrying digest d *)
@@ -372,6 +391,11 @@ Definition put_file (f : pfault) (h : hub) (e : row) (body : bytes) : hub * pres
   | FDeliver m lost regfail =>
       let '(h', r) := receive h (r_path e) (r_sha e) (r_size e) (r_sent e) (apply_mut m body) regfail in
       (h', if lost then PErr else pres_of r)
+  | FRetry m mark lost2 =>
+      let '(h1, _) := receive h (r_path e) (r_sha e) (r_size e) (r_sent e) (apply_mut m body) false in
+      let h2 := if mark then hub_mark_compacted h1 (r_path e) else h1 in
+      let '(h3, r) := receive h2 (r_path e) (r_sha e) (r_size e) (r_sent e) body false in
+      (h3, if lost2 then PErr else pres_of r)
   end.
 
 (* PutResult.Validate(entry) as far as the outcomes above can violate it *)
@@ -537,7 +561,8 @@ Inductive event :=
 | EPrune                           (* PruneSynced once the retention has elapsed for every synced row *)
 | ERequeue                         (* operator: RequeueFailed(all) *)
 | EDismiss                         (* operator: DismissFailed(all) *)
-| EHubCompact (p : N)              (* hub compaction consumes a received file: MarkCompacted + delete *)
+| EHubMarkCompacted (p : N)        (* hub compaction consumed a received file: the receipt is marked *)
+| EHubDeleteRaw (p : N)            (* ... and its (possibly deferred) source deletion completes *)
 | EHubRemove (p : N)               (* genuine hub-side removal (retention, operator) - index not told *)
 | ERun (sc : script).              (* one Agent.Run, possibly cut short by a crash *)
 
@@ -574,13 +599,9 @@ Definition apply_event (pt : pt_of) (maxa : N) (w : world) (e : event) : world :
                          then set_dism (set_att (set_state r Pending) 0) false else r) w
   | EDismiss =>
       map_rows (fun r => if lstate_eqb (r_state r) Failed then set_dism (set_state r Skipped) true else r) w
-  | EHubCompact p => w_set_hub w (hub_compact (w_hub w) p)
-  | EHubRemove p =>
-      let h := w_hub w in
-      match h_final h p with
-      | Some _ => w_set_hub w (hub_set_removed (hub_set_final h (fset (h_final h) p None)) (cinc (h_removed h) p))
-      | None => w
-      end
+  | EHubMarkCompacted p => w_set_hub w (hub_mark_compacted (w_hub w) p)
+  | EHubDeleteRaw p => w_set_hub w (hub_delete_raw (w_hub w) p)
+  | EHubRemove p => w_set_hub w (hub_remove (w_hub w) p)
   | ERun sc =>
       fst (fst (agent_run pt (w, {| c_crash := s_crash sc; c_puts := s_puts sc; c_rec := s_rec sc; c_maxa := maxa |})))
   end.
@@ -739,19 +760,33 @@ Definition hub_held_obs (tab : list bytes) (o : obs) (p : N) (d : digest) : bool
             end
   end.
 
-Fixpoint oracle_steps (tab : list bytes) (seen : list event) (prev : obs)
+(* genuine removals so far, per path, as OBSERVED: an EHubRemove after which the file is gone *)
+Definition removed_now (e : event) (prev o : obs) (p : N) : N :=
+  match e with
+  | EHubRemove q =>
+      if N.eqb q p then
+        match nth (N.to_nat (p - 1)) (o_final prev) None, nth (N.to_nat (p - 1)) (o_final o) None with
+        | Some _, None => 1
+        | _, _ => 0
+        end
+      else 0
+  | _ => 0
+  end.
+
+Fixpoint oracle_steps (tab : list bytes) (seen : list event) (rm : N -> N) (prev : obs)
          (l : list (event * option obs)) : bool :=
   match l with
   | [] => true
   | (e, oo) :: t =>
       let o := resolve prev oo in
+      let rm' := fun p => rm p + removed_now e prev o p in
       let evs := seen ++ [e] in
       (* hub content: every promoted file is byte-identical to what the spoke wrote *)
       forall_pos (fun p x => match x with
                              | Some fb => opt_eqb bytes_eqb (created evs p) (Some (tab_get tab fb))
                              | None => true end) 1 (o_final o) &&
       (* no double store *)
-      forall_pos (fun p x => x <=? 1 + count_removals evs p) 1 (o_commits o) &&
+      forall_pos (fun p x => x <=? 1 + rm' p) 1 (o_commits o) &&
       (* only documented transitions *)
       forallb documented (o_trans o) &&
       (* a row that became synced during this event is held by the hub with identical content *)
@@ -762,7 +797,7 @@ Fixpoint oracle_steps (tab : list bytes) (seen : list event) (prev : obs)
                              | None => false
                              end
                          | _ => true end) (o_trans o) &&
-      oracle_steps tab evs o t
+      oracle_steps tab evs rm' o t
   end.
 
 Fixpoint last_obs (prev : obs) (l : list (event * option obs)) : obs :=
@@ -772,7 +807,7 @@ Fixpoint last_obs (prev : obs) (l : list (event * option obs)) : obs :=
   end.
 
 Definition case_oracle (c : ccase) : bool :=
-  oracle_steps (c_tab c) [] obs0 (c_steps c) &&
+  oracle_steps (c_tab c) [] (fun _ => 0) obs0 (c_steps c) &&
   (* quiescence: after max_attempts quiet runs every row is synced, skipped or failed *)
   (if quiet_tail (c_max c) (map fst (c_steps c))
    then forallb (fun r => terminal (or_state r)) (o_led (last_obs obs0 (c_steps c)))
